@@ -41,7 +41,7 @@ class C20(vlib.Spec):
 
     def gen(self, rng, tier, n):
         out = []
-        for c in P.gen_programs(rng, tier, n):
+        for c in P.gen_programs(rng, tier, n, corpus="C20"):
             r = rng.fork()
             groups = []
             for _ in range(r.range(0, 3)):
@@ -52,7 +52,7 @@ class C20(vlib.Spec):
         return out
 
     def n_cases(self, tier):
-        return 260 if tier == "quick" else 1500
+        return 200 if tier == "quick" else 1500
 
     def to_coq(self, case, res):
         if not isinstance(res, dict) or "before" not in res:
